@@ -445,7 +445,11 @@ def step_tables(prog: Program, rep: Report) -> None:
                     inits[st.targets[0].id] = v
             except Exception:
                 pass
-    stepdef = [n for n in inner.body if isinstance(n, ast.Assign) and isinstance(n.value, ast.Subscript) and unparse(n.value.value) == "steps"]
+    # the list of steps is what the function returns first (whatever the local is called)
+    rets0 = [n for n in walk_no_nested(fi.node) if isinstance(n, ast.Return) and n.value is not None]
+    rv0 = record_ctor_as_tuple(prog, fi, rets0[0].value) if rets0 else None
+    steps_name = rv0.elts[0].id if isinstance(rv0, ast.Tuple) and rv0.elts and isinstance(rv0.elts[0], ast.Name) else "steps"
+    stepdef = [n for n in inner.body if isinstance(n, ast.Assign) and isinstance(n.value, ast.Subscript) and unparse(n.value.value) == steps_name]
     problems = []
     summary = {}
     for name, init in inits.items():
@@ -510,14 +514,20 @@ def step_tables(prog: Program, rep: Report) -> None:
     rep.check(rule, fi.qual, "running frame counter", ok, what_bad=f"each frame must take the next entry of `steps`: the index used is {unparse(stepdef[0].value.slice) if stepdef else None} = {idx[0]}*F + {idx[1]}*i + {idx[2]}" if idx else "each frame must take the next entry of `steps` (index = frames in the preceding files + frame number); the index expression is outside the loop summary", what_ok="index = (frames in preceding files) + (frame number in file)", loc=fi.loc(inner))
     svar = unparse(stepdef[0].targets[0]) if stepdef else "step"
     stores = {unparse(n.targets[0]): unparse(n.value) for n in inner.body if isinstance(n, ast.Assign) and isinstance(n.targets[0], ast.Subscript)}
-    rep.check(rule, fi.qual, "file_idx[step] = file, frame_idx[step] = frame number", stores.get(f"file_idx[{svar}]") == fvar and stores.get(f"frame_idx[{svar}]") == ivar, what_bad=f"stores are {stores}", what_ok="same key, same iteration", loc=fi.loc(inner))
+    # the two tables, whatever they are called: the one that receives the file (outer loop variable) and the one
+    # that receives the frame number (inner loop variable), both under the key taken from `steps`
+    key_sfx = f"[{svar}]"
+    file_tab = [t[: -len(key_sfx)] for t, v in stores.items() if t.endswith(key_sfx) and v == fvar]
+    frame_tab = [t[: -len(key_sfx)] for t, v in stores.items() if t.endswith(key_sfx) and v == ivar]
+    rep.check(rule, fi.qual, "file_idx[step] = file, frame_idx[step] = frame number", len(file_tab) == 1 and len(frame_tab) == 1 and file_tab != frame_tab, what_bad=f"stores are {stores}", what_ok="same key, same iteration", loc=fi.loc(inner))
     # steps built frame by frame with time2step
-    apps = [n for n in walk_no_nested(fi.node) if isinstance(n, ast.Call) and unparse(n.func) == "steps.append"]
+    apps = [n for n in walk_no_nested(fi.node) if isinstance(n, ast.Call) and unparse(n.func) == f"{steps_name}.append"]
     ok = len(apps) == 1 and isinstance(apps[0].args[0], ast.Call) and unparse(apps[0].args[0].func).endswith(".time2step")
     comp = [n for n in walk_no_nested(fi.node) if isinstance(n, ast.ListComp) and "time2step" in unparse(n)]
     rep.check(rule, fi.qual, "steps = [time2step(t) for t in all_frames]", ok or bool(comp), what_bad="the step of a frame must be timer.time2step(frame time), in frame order", what_ok="time2step per frame", loc=fi.loc())
     ret = [n for n in walk_no_nested(fi.node) if isinstance(n, ast.Return)]
-    rep.check(rule, fi.qual, "returns (steps, file_idx, frame_idx)", len(ret) == 1 and unparse(record_ctor_as_tuple(prog, fi, ret[0].value)) in ("(steps, file_idx, frame_idx)", "steps, file_idx, frame_idx"), what_bad=f"returns {unparse(ret[0].value) if ret else None}", what_ok="ok", loc=fi.loc())
+    want_ret = f"({steps_name}, {file_tab[0] if file_tab else 'file_idx'}, {frame_tab[0] if frame_tab else 'frame_idx'})"
+    rep.check(rule, fi.qual, "returns (steps, file_idx, frame_idx)", len(ret) == 1 and unparse(record_ctor_as_tuple(prog, fi, ret[0].value)) in (want_ret, want_ret[1:-1]), what_bad=f"returns {unparse(ret[0].value) if ret else None}", what_ok="ok", loc=fi.loc())
 
 
 def run(prog: Program, rep: Report, tier: str) -> None:
